@@ -132,6 +132,10 @@ class Server(object):
         self.command_timeout = command_timeout
         self.data_timeout = data_timeout or command_timeout
 
+        # A client that stops reading its replies is bounded like one that
+        # stops sending commands.
+        self.io.send_timeout = command_timeout
+
     @property
     def encrypted(self):
         """True if the session transport is encrypted, False otherwise."""
@@ -231,8 +235,12 @@ class Server(object):
 
                 command, arg = self._recv_command()
             except Timeout:
-                timed_out.send(self.io)
-                self.io.flush_send()
+                try:
+                    timed_out.send(self.io)
+                    self.io.flush_send()
+                except Timeout:
+                    # The client does not read the 421 either.
+                    pass
                 raise ConnectionLost()
 
     def _gather_params(self, remaining):
